@@ -1,7 +1,7 @@
 (* C15 - the property theorems, nothing else.  Each is closed by [exact] of a lemma proved in Dsl/DslProofs.v.
    dsl_eval L g : L = per-loop iteration budget, g = remaining depth budget (300 - ScriptFrame::Depth). *)
 From Coq Require Import ZArith List String Bool.
-From Icv Require Import Dsl.DslDefs Dsl.DslOps Dsl.DslEval Dsl.DslProofs Dsl.DslMono Dsl.DslAcyclic Dsl.DslAcyclicEval Dsl.DslPrec.
+From Icv Require Import Dsl.DslDefs Dsl.DslOps Dsl.DslEval Dsl.DslProofs Dsl.DslMono Dsl.DslAcyclic Dsl.DslAcyclicEval Dsl.DslPrec Dsl.DslLoops.
 From Icv Require Import Facts.Facts_c15.
 Import ListNotations.
 Local Open Scope string_scope.
@@ -175,6 +175,79 @@ Theorem C15_fixed_witnesses :
   dsl_observe (dsl_run 400 dsl_prog_iter) = ["[null,null,null]"; "{}"; "{""a"":[1,1,1]}"; "{}"].
 Proof. exact dsl_fixed_witnesses. Qed.
 Print Assumptions C15_fixed_witnesses.
+
+(* loops whose body changes what is being iterated (VMOps::For).  `for (k => v in c)` over a dictionary (isns = false) or a
+   namespace (isns = true), for EVERY body, frame, store and budgets - i.e. whatever the body does to c (add, remove, replace,
+   clear, rebind the variable, directly or through aliases and calls).  [run] is the loop function paired with the list of its body
+   evaluations (key bound, value bound, store the body started in, outcome of the body); its first component is the evaluator's result:
+   (1) the key list is taken from the store right after the collection expression was evaluated;
+   (2) the keys visited are a prefix of that list, in its order: a key added during the loop is never visited, none is visited twice;
+   (3) if every body evaluation goes on (no break / return / error), ALL keys of the list are visited: the number of iterations equals the
+       number of keys at entry - except that a namespace member removed meanwhile ends the loop with a script error at its turn;
+   (4) the value bound at an iteration is fetched from the container as it is at that iteration, after the key variable has been
+       bound (dsl_for_chain): the value of the store the previous body left behind; for a dictionary a key that is gone yields null. *)
+Theorem C15_for_dict_snapshot : forall L g fr st k v coll body l st1 (isns : bool),
+  String.eqb v "" = false ->
+  dsl_eval L g fr st coll = (DrVal (if isns then DvNs l else DvDict l), st1) ->
+  let keys := map fst (dsl_kv st1 l) in
+  let run := dsl_for_keys_run (dsl_eval L g) fr st1 k v l isns keys body in
+  dsl_eval L (S g) fr st (DeFor k v coll body) = fst run /\
+  (exists rest, keys = (map dsl_vi_key (snd run) ++ rest)%list) /\
+  (Forall (fun vis => dsl_goes_on (dsl_vi_out vis) = true) (snd run) ->
+     (map dsl_vi_key (snd run) = keys /\ List.length (snd run) = List.length (dsl_kv st1 l)) \/
+     (isns = true /\ fst (fst run) = DrErr DkName)) /\
+  dsl_for_chain (dsl_eval L g) fr k v l isns body st1 (snd run).
+Proof. exact dsl_for_dict_snapshot. Qed.
+Print Assumptions C15_for_dict_snapshot.
+
+Theorem C15_for_dict_fetch_null : forall st l key,
+  dsl_for_fetch false st l key = Some (match dsl_dget key (dsl_kv st l) with Some x => x | None => DvEmpty end).
+Proof. exact dsl_for_fetch_dict. Qed.
+Print Assumptions C15_for_dict_fetch_null.
+
+(* `for (x in array)` is index based and snapshots nothing: round i (0, 1, 2, ...) runs iff i is below the length the array has at
+   that moment and binds the element that is at index i at that moment (dsl_arr_chain); when the loop ends because the elements ran
+   out, the number of rounds has reached the length the array has THEN (a body that keeps appending is a legal endless loop: loop
+   budget), for every body *)
+Theorem C15_for_array_live : forall L g fr st k coll body l st1,
+  dsl_eval L g fr st coll = (DrVal (DvArr l), st1) ->
+  let run := dsl_for_arr_run (dsl_eval L g) L fr st1 k l 0 body in
+  dsl_eval L (S g) fr st (DeFor k "" coll body) = fst run /\
+  dsl_arr_chain (dsl_eval L g) fr k l body st1 0 (snd run) /\
+  (Forall (fun vis => dsl_goes_on (dsl_vi_out vis) = true) (snd run) -> fst (fst run) <> DrAbort DaFuel ->
+     fst (fst run) = DrVal DvEmpty /\ (List.length (dsl_arr (snd (fst run)) l) <= List.length (snd run))%nat).
+Proof. exact dsl_for_array_live. Qed.
+Print Assumptions C15_for_array_live.
+
+(* the callback-taking natives Array#map/filter/any/all/reduce (fix 2c1ef52) and while: the stop test reads the CURRENT length /
+   re-evaluates the condition in the store the previous round left behind (the one-round equations are Dsl/DslLoops.v
+   dsl_iter_round, dsl_reduce_round, dsl_while_round - the definitions unfolded once) *)
+Theorem C15_callback_iteration_live :
+  (forall ev mode f l L i st acc, (List.length (dsl_arr st l) <= i)%nat -> dsl_iter ev mode f l (S L) i st acc = (DrVal DvEmpty, st, acc, false)) /\
+  (forall ev f l L i acc st, (List.length (dsl_arr st l) <= i)%nat -> dsl_reduce ev (S L) f l i acc st = (DrVal acc, st)) /\
+  (forall ev f l L i acc st, (i < List.length (dsl_arr st l))%nat ->
+     dsl_reduce ev (S L) f l i acc st =
+     dsl_bind (dsl_callback ev st f [acc; nth i (dsl_arr st l) DvEmpty]) (fun r st1 => dsl_reduce ev L f l (S i) r st1)) /\
+  (forall ev f l L i st acc, (i < List.length (dsl_arr st l))%nat ->
+     dsl_iter ev DiMap f l (S L) i st acc =
+     match dsl_callback ev st f [nth i (dsl_arr st l) DvEmpty] with
+     | (DrVal r, st1) => dsl_iter ev DiMap f l L (S i) st1 (r :: acc)
+     | (o, st1) => (o, st1, acc, false)
+     end).
+Proof. exact dsl_callback_iteration_live. Qed.
+Print Assumptions C15_callback_iteration_live.
+
+(* witnesses (also the non-vacuity of the loop theorems): the body adds keys after the current one / the loop walks `locals`,
+   into which it binds its own variables / the body removes the current and a later key / the body appends to the array /
+   a namespace member removed before its turn *)
+Theorem C15_loop_witnesses :
+  dsl_show_res (dsl_run 400 dsl_prog_for_adds) = "[1,2]" /\
+  dsl_show_res (dsl_run 400 dsl_prog_for_locals) = "3" /\
+  dsl_show_res (dsl_run 400 dsl_prog_for_removes) = "[[[""a"",1],[""b"",2],[""c"",null]],{}]" /\
+  dsl_show_res (dsl_run 400 dsl_prog_for_arr_grows) = "[4,[1,2,1,2]]" /\
+  fst (dsl_run 400 dsl_prog_for_ns_removed) = DrErr DkName.
+Proof. exact dsl_loop_witnesses. Qed.
+Print Assumptions C15_loop_witnesses.
 
 (* the executable oracle run over implementation traces: accepts every model trace; for a program the model follows
    to the end (no abort: in particular none of the recorded crash classes, visible here as a hypothesis) it accepts
